@@ -302,6 +302,20 @@ func run(raw json.RawMessage) (common.Case, error) {
 		}
 	}
 	if downsampleutil.ValidRaw(in.Samples) {
+		// one output row per window, also across chunk boundaries
+		prevW, first := int64(0), true
+		for ci, k := range out {
+			for _, s := range k.Count {
+				w := s.T - s.T%in.Res + in.Res - 1
+				if !first && w <= prevW && c.GoPred == "" {
+					c.GoPred = fmt.Sprintf("window ending at %d has two output rows (the second one at t=%d in chunk %d): a window was split", w, s.T, ci)
+					c.Sig = "window-split"
+				}
+				prevW, first = w, false
+			}
+		}
+	}
+	if downsampleutil.ValidRaw(in.Samples) && c.GoPred == "" {
 		if cnt != int64(nonNaN) {
 			c.GoPred = fmt.Sprintf("total count %d != number of non-NaN raw samples %d", cnt, nonNaN)
 			c.Sig = "count-total"
@@ -330,7 +344,15 @@ func gen(r *rand.Rand, tier string, n int) []any {
 		out = append(out, input{Res: downsampleutil.GenRes(r), Samples: nil})
 		in := out[len(out)-1].(input)
 		in.Samples = downsampleutil.GenRaw(r, tier, in.Res, false)
-		if r.Intn(4) == 0 {
+		if r.Intn(5) == 0 {
+			// several chunks, every window closed by a sample on its last millisecond
+			in.Res = common.Pick(r, downsample.ResLevel1, 10, 1000, 60000, 7)
+			nWin := 150 + r.Intn(250)
+			if in.Res == downsample.ResLevel1 {
+				nWin = 380 + r.Intn(200) // >= 2 chunks needs > 140 expected samples, i.e. > 700 raw samples
+			}
+			in.Samples = downsampleutil.GenWindowEnds(r, in.Res, nWin)
+		} else if r.Intn(4) == 0 {
 			// fault on the read path; mostly series with several chunks
 			if r.Intn(4) != 0 {
 				in.Res = common.Pick(r, int64(1000), 10, 7, 60000)
